@@ -63,7 +63,9 @@ def dump_ops(sigs):
             d += ["st %d 0 %d 4" % (sid, st["total"] // 4), "st %d 3 1 20" % sid]
         d += ["rd %d %d 9" % (sid, st["total"] // 2)]
     d += ["an 0 -1000000000000", "udr"]
-    return d
+    # every call is issued twice in a row on the same reader: a call that failed with an error code must not leave state behind that makes
+    # the retry return the corrupted content as valid (nothing else is read in between)
+    return [x for op in d for x in (op, op)]
 
 
 def corruptions(rng, size, regions, tier, big=False):
